@@ -1030,3 +1030,5 @@ def _run_timer(world: World, plan):
     sig = [(a.rearm, a.how, a.expectation()) for a in model.arms]
     return common.finish(world, bool(stats['superseded'] or stats['ties']),
                          ['timer', sig, len(callbacks), plan.get('cb')])
+
+INFO['rule'] += ' Round-5 additions: the server session is aborted and the client logs in again by itself while requests are registered (relogin).'
